@@ -134,7 +134,7 @@ Proof.
   destruct (N.eqb_spec qfi 0); [contradiction|]. destruct (conf_find conf 0); reflexivity.
 Qed.
 
-Lemma bursts_min : forall conf q,
+Lemma bursts_min_cmds : forall conf q,
   let c := cfg_for conf (q_qfi q) in
   c_cbs c <= k_cbs (ul_cmd conf q) /\ c_pbs c <= k_pbs (ul_cmd conf q) /\ c_ebs c <= k_ebs (ul_cmd conf q) /\
   c_cbs c <= k_cbs (dl_cmd conf q) /\ c_pbs c <= k_pbs (dl_cmd conf q) /\ c_ebs c <= k_ebs (dl_cmd conf q).
@@ -142,7 +142,7 @@ Proof.
   intros conf q c. unfold ul_cmd, dl_cmd, dir_bursts. cbn [k_cbs k_pbs k_ebs fst snd]. fold c.
   rewrite !maxu_spec. repeat split; lia.
 Qed.
-Lemma bursts_rate : forall conf q,
+Lemma bursts_rate_cmds : forall conf q,
   let d := c_dur (cfg_for conf (q_qfi q)) in
   calc_burst (q_ulgbr q) d <= k_cbs (ul_cmd conf q) /\ calc_burst (q_ulmbr q) d <= k_pbs (ul_cmd conf q) /\
   calc_burst (q_ulmbr q) d <= k_ebs (ul_cmd conf q) /\
@@ -192,3 +192,69 @@ Lemma up4_dl_rate_shared_refuted :
   let q1 := mkQer 1 0 9 0 0 1000 8 0 0 1 in let q2 := mkQer 2 1 9 0 0 5000 5000 0 0 1 in
   exists m, In m (configure_meters [q1; q2]) /\ um_qer m = 1 /\ m_pir (dl_cfg m) <> q_dlmbr q1 * 125.
 Proof. cbv zeta. eexists. split; [left; reflexivity|]. split; [reflexivity|]. vm_compute. discriminate. Qed.
+
+(* ------------------------------------------------------------------ the sentences, over add_qer itself *)
+Lemma c09_gate : forall conf q, lvl_ok q -> exists c1 c2, add_qer conf q = [c1; c2] /\
+  (q_uls q <> 0 -> k_gate c1 = gate_drop) /\ (q_dls q <> 0 -> k_gate c2 = gate_drop).
+Proof. intros conf q Hl. exists (ul_cmd conf q), (dl_cmd conf q). split; [now apply add_qer_two|apply gate_closed]. Qed.
+
+Lemma c09_rates : forall conf q, lvl_ok q -> r40 q -> exists c1 c2, add_qer conf q = [c1; c2] /\
+  (q_uls q = 0 -> (q_ulmbr q <> 0 \/ q_ulgbr q <> 0) -> q_ulgbr q <= q_ulmbr q ->
+     k_gate c1 = gate_meter /\ k_pir c1 = q_ulmbr q * 125 /\ k_cir c1 = N.max (q_ulgbr q * 125) 1) /\
+  (q_dls q = 0 -> (q_dlmbr q <> 0 \/ q_dlgbr q <> 0) -> q_dlgbr q <= q_dlmbr q ->
+     k_gate c2 = gate_meter /\ k_pir c2 = q_dlmbr q * 125 /\ k_cir c2 = N.max (q_dlgbr q * 125) 1).
+Proof.
+  intros conf q Hl Hr. exists (ul_cmd conf q), (dl_cmd conf q). split; [now apply add_qer_two|]. split; intros.
+  - now apply rates_ul.
+  - now apply rates_dl.
+Qed.
+
+Lemma c09_unmetered : forall conf q, lvl_ok q -> exists c1 c2, add_qer conf q = [c1; c2] /\
+  (q_uls q = 0 -> q_ulmbr q = 0 -> q_ulgbr q = 0 -> k_gate c1 = gate_unmeter) /\
+  (q_dls q = 0 -> q_dlmbr q = 0 -> q_dlgbr q = 0 -> k_gate c2 = gate_unmeter).
+Proof. intros conf q Hl. exists (ul_cmd conf q), (dl_cmd conf q). split; [now apply add_qer_two|apply unmetered_both]. Qed.
+
+Lemma c09_table : forall conf q, lvl_ok q -> exists c1 c2, add_qer conf q = [c1; c2] /\
+  (q_level q = 0 -> k_tbl c1 = AppTbl /\ k_fields c1 = [if_access; q_id q; q_fseid q] /\ k_values c1 = [q_qfi q] /\
+                    k_tbl c2 = AppTbl /\ k_fields c2 = [if_core; q_id q; q_fseid q] /\ k_values c2 = [q_qfi q]) /\
+  (q_level q = 1 -> k_tbl c1 = SessTbl /\ k_fields c1 = [if_access; q_fseid q] /\
+                    k_tbl c2 = SessTbl /\ k_fields c2 = [if_core; q_fseid q]).
+Proof.
+  intros conf q Hl. exists (ul_cmd conf q), (dl_cmd conf q). split; [now apply add_qer_two|]. split; intros H.
+  - now apply cmd_table_app.
+  - now apply cmd_table_sess.
+Qed.
+
+(* bursts: at least the configured minimum that applies to the QFI, always *)
+Definition bursts_min (conf : qosconf) (q : qer) (c1 c2 : qoscmd) : Prop :=
+  let c := cfg_for conf (q_qfi q) in
+  c_cbs c <= k_cbs c1 /\ c_pbs c <= k_pbs c1 /\ c_ebs c <= k_ebs c1 /\
+  c_cbs c <= k_cbs c2 /\ c_pbs c <= k_pbs c2 /\ c_ebs c <= k_ebs c2.
+(* bursts: at least rate x burst duration (committed burst from the GBR, peak and excess burst from the MBR) *)
+Definition bursts_cover (conf : qosconf) (q : qer) (c1 c2 : qoscmd) : Prop :=
+  let d := c_dur (cfg_for conf (q_qfi q)) in
+  burst_exact (q_ulgbr q) d <= k_cbs c1 /\ burst_exact (q_ulmbr q) d <= k_pbs c1 /\ burst_exact (q_ulmbr q) d <= k_ebs c1 /\
+  burst_exact (q_dlgbr q) d <= k_cbs c2 /\ burst_exact (q_dlmbr q) d <= k_pbs c2 /\ burst_exact (q_dlmbr q) d <= k_ebs c2.
+
+Lemma c09_burst_min : forall conf q, lvl_ok q -> exists c1 c2, add_qer conf q = [c1; c2] /\ bursts_min conf q c1 c2.
+Proof. intros conf q Hl. exists (ul_cmd conf q), (dl_cmd conf q). split; [now apply add_qer_two|apply bursts_min_cmds]. Qed.
+
+(* which entry applies: the last entry of the QCI; else entry 0; else the built-in default (32 MTU, 10 ms) *)
+Lemma c09_cfg_choice : forall conf qfi,
+  (forall c, conf_find conf qfi = Some c -> cfg_for conf qfi = c) /\
+  (conf_find conf qfi = None -> qfi <> 0 -> forall c, conf_find conf 0 = Some c -> cfg_for conf qfi = c) /\
+  (conf_find conf qfi = None -> conf_find conf 0 = None -> cfg_for conf qfi = mkCfg 48448 48448 48448 10).
+Proof.
+  intros conf qfi. split; [intros c H; now apply cfg_for_configured|]. split.
+  - intros H Hnz c H0. rewrite cfg_for_fallback by assumption. now rewrite H0.
+  - intros H H0. unfold cfg_for, qci_map. rewrite H. destruct (N.eqb_spec qfi 0) as [->|Hnz]; [reflexivity|].
+    rewrite H0. reflexivity.
+Qed.
+
+(* the full burst sentence fails: 42056 kbit/s for 87 ms *)
+Lemma c09_burst_refuted :
+  exists conf q, lvl_ok q /\ r40 q /\ ~ (exists c1 c2, add_qer conf q = [c1; c2] /\ bursts_cover conf q c1 c2).
+Proof.
+  exists [(9, mkCfg 0 0 0 87)], (mkQer 1 0 9 0 0 42056 42056 0 0 1). split; [now left|]. split; [repeat split; reflexivity|].
+  intros (c1 & c2 & E & H). vm_compute in E. injection E as <- <-. destruct H as (_ & H & _). vm_compute in H. now apply H.
+Qed.
